@@ -318,9 +318,27 @@ func FileNameCases() []*Case {
 		{"case-differs", 0, []core.File{{Name: "a.soy", Text: ns("sh", t("Tmpl", "T")+t("main", "{call .Tmpl/}{call .tmpl/}{call SH.tmpl/}"))}, {Name: "b.soy", Text: ns("sh", t("tmpl", "t"))}, {Name: "c.soy", Text: ns("SH", t("tmpl", "S"))}}},
 		{"template-named-like-namespace", 0, []core.File{{Name: "a.soy", Text: ns("r.b", t("c", "C")+t("main", "{call .c/}{call r.b.c.d/}"))}, {Name: "b.soy", Text: ns("r.b.c", t("d", "D"))}}},
 	}
+	// template ATTRIBUTES on one or both duplicates: private, autoescape, kind
+	ta := func(n, attrs, b string) string {
+		return "/** */\n{template ." + n + attrs + "}\n" + b + "\n{/template}\n"
+	}
+	caller := func(nm string) string { return t("main"+nm, "{call .helper/}") }
+	for i, pair := range [][2]string{
+		{` private="true"`, ` private="true"`}, {``, ` private="true"`}, {` private="true"`, ``}, {` private="false"`, ` private="true"`},
+		{` autoescape="false"`, ` autoescape="true"`}, {` kind="html"`, ` kind="text"`}, {` private="true" autoescape="false"`, ` private="true" kind="text"`},
+	} {
+		shapes = append(shapes, struct {
+			id    string
+			nerr  int
+			files []core.File
+		}{fmt.Sprintf("dup-with-attributes-%d", i), 1, []core.File{
+			{Name: "a.soy", Text: ns("sh", caller("A")+ta("helper", pair[0], "helper of a {$ij.x}<b>"))},
+			{Name: "b.soy", Text: ns("sh", caller("B")+ta("helper", pair[1], "helper of b {$ij.x}<i>"))},
+			{Name: "c.soy", Text: ns("third", t("u", "{call sh.mainA/}{call sh.mainB/}"))}}})
+	}
 	for _, sh := range shapes {
 		cases = append(cases, &Case{ID: "shape-" + sh.id, Origin: "go", Files: sh.files, Globals: map[string]interface{}{},
-			Shape: Shape{NF: len(sh.files), NErr: sh.nerr}, NErr: sh.nerr, ErrNamesFilesInOrder: sh.id == "dup-across-files"})
+			Shape: Shape{NF: len(sh.files), NErr: sh.nerr}, NErr: sh.nerr, ErrNamesFilesInOrder: sh.id == "dup-across-files" || strings.HasPrefix(sh.id, "dup-with-attributes")})
 	}
 	return cases
 }
